@@ -92,6 +92,41 @@ func gen(c *vlib.Ctx) {
 			}
 		}
 	}
+	// a 200 answer cut in mid-body, at every request position; any retry of the block is
+	// answered well; then a clean second sync on the same subscriber
+	for _, h := range []string{"sha2-256", "sha2-256/16", "sha2-512", "identity"} {
+		for n := 1; n <= 3; n++ {
+			if h != "sha2-256" && n != 2 {
+				continue
+			}
+			bw := getWorld(Scn{Hash: h, Ads: n, Chunk: 2, Raw: 1})
+			for pos := 0; pos < n; pos++ {
+				l := len(bw.w.Blocks[n-pos-1].Raw)
+				for i, k := range []int{0, 1, l / 2, l - 1} {
+					runScn(c, Scn{Hash: h, Ads: n, Chunk: 2, Raw: 1, Syncs: []SyncJ{
+						{T: "ad", Head: n, Seg: int64(i % 3), Faults: []Fault{{Pos: pos, Kind: "cut", Arg: k}}},
+						{T: "ad", Head: n}}}, false)
+				}
+			}
+			// entry chunks (dag-json) and the raw-codec leaf
+			raw := n + 3
+			lr := len(bw.w.Blocks[raw-1].Raw)
+			for _, k := range []int{0, 1, 7, lr / 2, lr - 1} {
+				runScn(c, Scn{Hash: h, Ads: n, Chunk: 2, Raw: 1, Syncs: []SyncJ{
+					{T: "one", Head: raw, Faults: []Fault{{Pos: 0, Kind: "cut", Arg: k}}},
+					{T: "one", Head: raw}}}, false)
+				runScn(c, Scn{Hash: h, Ads: n, Chunk: 2, Raw: 1, Syncs: []SyncJ{
+					{T: "entries", Head: raw, Faults: []Fault{{Pos: 0, Kind: "cut", Arg: k}}},
+					{T: "entries", Head: raw},
+					{T: "entries", Head: n + 2, Faults: []Fault{{Pos: 1, Kind: "cut", Arg: k}}},
+					{T: "entries", Head: n + 2}}}, false)
+			}
+			// other faults on the raw leaf
+			for _, f := range []Fault{{Kind: "flip", Arg: 3}, {Kind: "trunc", Arg: lr - 1}, {Kind: "append", Arg: 1}, {Kind: "other", Arg: 1}, {Kind: "empty"}} {
+				runScn(c, Scn{Hash: h, Ads: n, Chunk: 2, Raw: 1, Syncs: []SyncJ{{T: "one", Head: raw, Faults: []Fault{f}}, {T: "one", Head: raw}}}, false)
+			}
+		}
+	}
 	// oversized bodies
 	for _, h := range []string{"sha2-256", "identity"} {
 		for pos := 0; pos < 2; pos++ {
